@@ -36,9 +36,15 @@ def _prm(case):
     return prm
 
 
-def _filled(y, valid, fill):
+def _filled(y, valid, fill, enc=None):
     a = np.array(y, dtype="float64")
     a[~valid] = fill
+    if enc is not None and enc.get("mix"):
+        # several encodings of "missing" inside ONE series: the k-th missing cell takes mix[k % len(mix)] (None = the nodata value)
+        mix = enc["mix"]
+        for k, i in enumerate(np.nonzero(~valid)[0]):
+            m = mix[k % len(mix)]
+            a[i] = float(enc["nodata"]) if m is None else float(str(m).replace("Infinity", "inf").replace("NaN", "nan"))
     return a
 
 
@@ -51,7 +57,7 @@ def sub_placeholder(case):
     base = None
     for enc in case["encodings"]:
         fill, nd = float(enc["fill"]), float(enc["nodata"])
-        out, lopt = smooth.run_variant(variant, _filled(y, valid, fill), nd, prm)
+        out, lopt = smooth.run_variant(variant, _filled(y, valid, fill, enc), nd, prm)
         cells = slice(None) if enough else valid
         if base is None:
             base = (out, lopt, enc)
@@ -205,14 +211,31 @@ def smoother_case(draw, variants, nmax=200, few_valid=False, gapfill=False):
         nd = gens.placeholder_for(y, valid, "below")
         for nf in draw(st.lists(st.sampled_from(["NaN", "Infinity", "-Infinity"]), min_size=0, max_size=2, unique=True)):
             encs.append({"fill": nf, "nodata": nd, "kind": nf})
+        if sum(1 for v in valid if not v) >= 2 and draw(st.integers(0, 2)) == 0:
+            mix = draw(st.lists(st.sampled_from([None, "NaN", "Infinity", "-Infinity"]), min_size=2, max_size=5).filter(lambda m: len(set(m)) > 1))
+            encs.append({"fill": nd, "nodata": nd, "kind": "mixed", "mix": mix})
+    if not few_valid and not gapfill and draw(st.integers(0, 9)) == 0:
+        # nodata values no cell of the series can hold (a uint16 fill value, NaN as "no gaps", a fractional or huge number) on a
+        # gap-free series that contains the values such a number turns into when forced into int16
+        case["valid"] = valid = [True] * n
+        case["gcls"] = "none_offdomain_nodata"
+        y = list(y)
+        for i in draw(st.lists(st.integers(0, n - 1), min_size=1, max_size=min(n, 4), unique=True)):
+            y[i] = draw(st.sampled_from([-1, 0, -1, 0, 1, -25536, 5536]))
+        case["y"] = y
+        ok = gens.placeholder_for(y, valid, "below")
+        encs = [{"fill": ok, "nodata": ok, "kind": "below"}]
+        for v in draw(st.lists(st.sampled_from([65535.0, "NaN", 0.5, -0.5, 40000.0, -60000.0, 65536.0, 1e10]), min_size=1, max_size=3, unique=True)):
+            encs.append({"fill": ok, "nodata": v, "kind": "offdomain"})
     case["encodings"] = encs
     return case
 
 
 def _norm(case):
     for e in case["encodings"]:
-        if isinstance(e["fill"], str):
-            e["fill"] = float(e["fill"].replace("Infinity", "inf").replace("NaN", "nan"))
+        for k in ("fill", "nodata"):
+            if isinstance(e[k], str):
+                e[k] = float(e[k].replace("Infinity", "inf").replace("NaN", "nan"))
     return case
 
 
@@ -224,7 +247,7 @@ def run(ctx):
         case = _norm(case)
         missing = not all(case["valid"])
         kinds = sorted({str(e["kind"]) for e in case["encodings"]})
-        rec.case("placeholder", case, nontrivial=missing and len(case["encodings"]) > 1,
+        rec.case("placeholder", case, nontrivial=(missing or case["gcls"] == "none_offdomain_nodata") and len(case["encodings"]) > 1,
                  cls=[case["variant"], "gap:" + case["gcls"]] + ["enc:" + k for k in kinds])
         sub_placeholder(case)
 
